@@ -163,6 +163,7 @@ func c11Check(r *vkit.Run, in c11Input, replay []int) {
 		return
 	}
 	body := func(c *vsched.Ctx) {
+		r.BeginChoices("C11", in, c.Prefix())
 		res := evalEngineCtx(c, mockq.New(data), expr.Text(), start, end, time.Duration(step))
 		r.Eval()
 		if why := compare(res, exp, orderAt); why != "" {
